@@ -529,6 +529,15 @@ class FunctionVerifier:
             I.env['__out__'] = I.out
         for cl in c.requires:
             I.assume(I.to_bool(I.ev_pure(cl.node)))
+            n = cl.node
+            # `isinstance(param, C)` in a precondition: make the constructor explicit
+            if isinstance(n, ast.Call) and isinstance(n.func, ast.Name) and n.func.id == 'isinstance' and len(n.args) == 2 \
+                    and isinstance(n.args[0], ast.Name) and isinstance(n.args[1], ast.Name):
+                key = I.U.classmap.get(n.args[1].id)
+                v = I.env.get(n.args[0].id)
+                if key and key in I.U.ctors and is_z3(v) and I.sort_of(v) == key[0]:
+                    I.refine(n.args[0].id, key[0], key[1])
+                    I.old_env[n.args[0].id] = I.env[n.args[0].id]
         I.oblige('cover/requires', False, 'cover')       # vacuity guard: the precondition must be satisfiable
         if c.decreases:
             I.entry_measure = [I.ev_pure(d.node) for d in c.decreases]
